@@ -143,6 +143,11 @@ pub fn start_fsm_with_data_and_finish_mode(
         .spawn(move || {
             #[cfg(feature = "Debug")]
             debug!("SM Session {} starting...", session_id);
+            if !is_datamodel_supported(sm.datamodel.as_str()) {
+                // W3C: a document with an unsupported datamodel is rejected, the session is not run.
+                error!("Unsupported Data Model '{}', session {} is not started", sm.datamodel, session_id);
+                return;
+            }
             {
                 let mut datamodel = create_datamodel(sm.datamodel.as_str(), global_data, &options);
                 {
@@ -3626,14 +3631,24 @@ pub fn create_datamodel(
     global_data: GlobalDataArc,
     options: &HashMap<String, String>,
 ) -> Box<dyn Datamodel> {
-    match datamodel_factories
+    // The lock on the factories is released before a possible panic, otherwise it would be poisoned for all sessions.
+    let datamodel = datamodel_factories
         .lock()
         .unwrap()
         .get_mut(&name.to_lowercase())
-    {
-        Some(factory) => factory.create(global_data, options),
+        .map(|factory| factory.create(global_data, options));
+    match datamodel {
+        Some(datamodel) => datamodel,
         None => panic!("Unsupported Data Model '{}'", name),
     }
+}
+
+/// Checks if a datamodel with this name is registered.
+pub fn is_datamodel_supported(name: &str) -> bool {
+    datamodel_factories
+        .lock()
+        .unwrap()
+        .contains_key(&name.to_lowercase())
 }
 
 ////////////////////////////////////////
